@@ -18,6 +18,7 @@ Event log lines:
   E <name>                       an observable effect just happened / is being issued
   K <sig> <ctx> <n> <file>:<lineno>   the signal is sent now; ctx = try | prop | atexit
   K KILL - <j> eff:<name>        the second death: SIGKILL now, effect <name> would have been the next
+  CE <name>                      an observable effect in a process forked by the task body
                                  (also appended by the driver when it sends the signal from outside to a
                                  process that is blocked on the run lock)
 """
@@ -95,7 +96,7 @@ def main():
 
     def emit(text):
         """one observable effect (E ...) is about to happen (taking the lock: has just happened)"""
-        if fired[0] and j2 >= 0:
+        if fired[0] and j2 >= 0 and not events.in_child():
             if posts[0] == j2:
                 log("K KILL - %d eff:%s" % (j2, text.split(" ")[1]))
                 os.kill(os.getpid(), signal.SIGKILL)
@@ -224,6 +225,8 @@ def main():
         return "prop"
 
     def local(frame, event, arg):
+        if events.in_child():   # a process forked by the body: observed (C lines), never a kill point
+            return None
         if event == "line":
             count[0] += 1
             tag = "run" if frame.f_code.co_filename == runpy_file else "task"
